@@ -36,7 +36,7 @@ def cases(tier):
   # sharing one constant buffer across subgraphs
   for t, v in (('FULLY_CONNECTED', 'bias'), ('CONV_2D', '1x1'),
                ('EMBEDDING_LOOKUP', 'w4')):
-    ar = dict(irm.VARIANTS[t])[v]
+    ar = irm.arity(t, v)
     a = {'ops': [irm.op(t, v, [0] * ar)], 'exports': []}
     b = {'ops': [irm.op(t, v, [0] * ar, share=['buffer', 0, 0])], 'exports': []}
     yield {'subs': [a, b], 'shared': True}
